@@ -563,3 +563,42 @@ package fsm
 //@   loop 2 step [C02.ro.view+C10] isNilSlice(ops[rangeindex+1].RangeEnd) ==> respRange(resp.Responses[rangeindex+1]).Count == (old(p.pebble.v.vP)[encK(1, bytesOf(ops[rangeindex+1].Key))] ? 1 : 0)
 //@   loop 2 invariant snapshot.vP == old(p.pebble.v.vP) && snapshot.vV == old(p.pebble.v.vV)
 //@   loop 2 invariant resp.Succeeded == ok && len(ops) == (ok ? len(asType(l, *regattapb.TxnRequest).Success) : len(asType(l, *regattapb.TxnRequest).Failure))
+
+// ---------------------------------------------------------------- FSM.Open: durable directory switch (C04)
+
+//@ import rp "github.com/jamf/regatta/pebble"
+//@ import prometheus "github.com/prometheus/client_golang/prometheus"
+//@ import vfs "github.com/cockroachdb/pebble/vfs"
+
+// pebble.Open creates the DB directory if it is missing - in the volatile namespace only
+//@ func (*FSM).openDB
+//@   assumed
+//@   results db, err
+//@   requires p != nil
+//@   ensures err == nil ==> db != nil && p.fs.vHas[dbdir] && (db.vP[bytesOf(sysLocalIndex)] ==> blen(db.vV[bytesOf(sysLocalIndex)]) == 8) && (db.vP[bytesOf(sysLeaderIndex)] ==> blen(db.vV[bytesOf(sysLeaderIndex)]) == 8)
+//@   ensures forall q string :: old(p.fs.vHas[q]) ==> p.fs.vHas[q]
+//@   modifies p.fs.vHas
+//@ iface vfs.FS.Stat
+//@   assumed
+//@   modifies nothing
+//@ func prometheus.Register
+//@   assumed
+//@   modifies nothing
+//@ func appliedContract
+//@   assumed
+//@   modifies nothing
+
+// crash-safety invariant of a table's data directory d: the durable `current` names a directory
+// whose entry in d is durable (so that after a crash at any later point Open finds it)
+//@ pure func recoverable(fs vfs.FS, d string) bool = fs.dCur[d] != "" ==> fs.dHas[pjoin(d, fs.dCur[d])]
+
+// Open (after a restart the volatile namespace equals the durable one): keeps the invariant at
+// every exit, in particular it never makes `current` durable before the directory it names.
+//@ func (*FSM).Open
+//@   functype FSM.appliedFunc appliedContract
+//@   results idx, err
+//@   requires p != nil && p.fs != nil && p.log != nil && p.appliedFunc != nil && p.metrics != nil && parentOf(p.dirname) != p.dirname
+//@   requires [restart] p.fs.vCur[p.dirname] == p.fs.dCur[p.dirname] && (p.fs.dCur[p.dirname] != "" ==> p.fs.vHas[pjoin(p.dirname, p.fs.dCur[p.dirname])])
+//@   requires [inv] recoverable(p.fs, p.dirname)
+//@   ensures [C04.open.recoverable] recoverable(p.fs, p.dirname)
+//@   modifies p.fs.vHas, p.fs.dHas, p.fs.dCur, p.fs.vCur, p.fs.updName, p.pebble.v
